@@ -7,6 +7,112 @@ use serde_json::{json, Value};
 use std::io::Write;
 
 pub fn run_section(sid: &str, tag: &Value, section: &[u8], out: &mut dyn Write) -> usize {
+    run_section_progs(sid, tag, section, &[], out)
+}
+
+/// One operation of a program on a single cursor.
+#[derive(Clone, Debug)]
+pub enum POp {
+    Next,
+    /// `nth(n)`; a negative n stands for `usize::MAX`
+    Nth(i64),
+    /// a consuming adaptor through `by_ref()`: collect / count / last / fold / for_each
+    Rest(String),
+    /// `step_by(k)` on a fresh cursor, collected (does not touch the session's cursor)
+    StepBy(usize),
+}
+
+fn pop_json(op: &POp) -> Value {
+    match op {
+        POp::Next => json!({"op": "next"}),
+        POp::Nth(n) => json!({"op": "nth", "n": n}),
+        POp::Rest(how) => json!({"op": "rest", "how": how}),
+        POp::StepBy(k) => json!({"op": "step_by", "k": k}),
+    }
+}
+
+fn pop_from(v: &Value) -> POp {
+    match v["op"].as_str().unwrap() {
+        "next" => POp::Next,
+        "nth" => POp::Nth(v["n"].as_i64().unwrap()),
+        "rest" => POp::Rest(v["how"].as_str().unwrap().to_string()),
+        _ => POp::StepBy(v["k"].as_u64().unwrap() as usize),
+    }
+}
+
+fn strip(v: Value) -> Value {
+    match v["k"].as_str() {
+        Some("ok") => json!({"k": "ok", "t": v["t"], "v": v["v"]}),
+        Some("err") => json!({"k": "err", "e": v["e"], "a": v["a"], "b": v["b"]}),
+        Some("panic") => v,
+        _ => json!({"k": "none"}),
+    }
+}
+
+/// Runs one program on one fresh cursor: TlvRestart, then one event per operation.
+fn run_program(sid: &str, section: &[u8], prog: &[POp], out: &mut dyn Write) -> usize {
+    let mut n = 0;
+    writeln!(out, "{}", json!({"sid": sid, "op": "TlvRestart"})).unwrap();
+    n += 1;
+    let limit = section.len() / 3 + 9;
+    let mut tlvs = TypeLengthValues::from(section);
+    for op in prog {
+        let r = guard(|| match op {
+            POp::Next => json!({"sid": sid, "op": "TlvNext", "r": tlv_item(tlvs.next())}),
+            POp::Nth(k) => {
+                let arg = if *k < 0 { usize::MAX } else { *k as usize };
+                json!({"sid": sid, "op": "TlvNth", "n": k, "r": strip(tlv_item(tlvs.nth(arg)))})
+            }
+            POp::Rest(how) => {
+                // the adaptor consumes a CLONE of the moved cursor by value (so that an overridden
+                // count / last / fold is the one that runs); the cursor itself is then drained
+                let c = tlvs.clone();
+                let r = match how.as_str() {
+                    "count" => json!({"k": "ok", "n": c.count()}),
+                    "last" => json!({"k": "ok", "item": strip(tlv_item(c.last()))}),
+                    "fold" => json!({"k": "ok", "n": c.fold(0usize, |a, _| a + 1)}),
+                    "for_each" => {
+                        let mut items = Vec::new();
+                        c.for_each(|r| items.push(strip(tlv_item(Some(r)))));
+                        json!({"k": "ok", "items": items})
+                    }
+                    _ => {
+                        let items: Vec<Value> = c.collect::<Vec<_>>().into_iter().map(|r| strip(tlv_item(Some(r)))).collect();
+                        json!({"k": "ok", "items": items})
+                    }
+                };
+                for _ in 0..limit {
+                    if tlvs.next().is_none() {
+                        break;
+                    }
+                }
+                json!({"sid": sid, "op": "TlvRest", "how": how, "r": r})
+            }
+            POp::StepBy(k) => {
+                let items: Vec<Value> = TypeLengthValues::from(section).step_by(*k).take(limit).map(|r| strip(tlv_item(Some(r)))).collect();
+                json!({"sid": sid, "op": "TlvStepBy", "k": k, "r": {"k": "ok", "items": items}})
+            }
+        });
+        match r {
+            Ok(v) => {
+                writeln!(out, "{}", v).unwrap();
+                n += 1;
+            }
+            Err(p) => {
+                let mut v = pop_json(op);
+                let name = match op { POp::Next => "TlvNext", POp::Nth(_) => "TlvNth", POp::Rest(_) => "TlvRest", POp::StepBy(_) => "TlvStepBy" };
+                v["op"] = json!(name);
+                v["sid"] = json!(sid);
+                v["r"] = panic_value(&p);
+                writeln!(out, "{}", v).unwrap();
+                return n + 1;
+            }
+        }
+    }
+    n
+}
+
+pub fn run_section_progs(sid: &str, tag: &Value, section: &[u8], progs: &[Vec<POp>], out: &mut dyn Write) -> usize {
     let mut n = 0;
     let mut tlvs = TypeLengthValues::from(section);
     let open = guard(|| json!({"k": "ok", "len": tlvs.len(), "empty": tlvs.is_empty(), "bytes_eq": tlvs.as_bytes() == section}))
@@ -76,13 +182,21 @@ pub fn run_section(sid: &str, tag: &Value, section: &[u8], out: &mut dyn Write) 
             }
         }
     }
+    for prog in progs {
+        n += run_program(sid, section, prog, out);
+    }
     n
 }
 
 pub fn run_scenario(v: &Value, idx: usize, out: &mut dyn Write) -> usize {
     let sid = v["sid"].as_str().map(|s| s.to_string()).unwrap_or(format!("scn-{}", idx));
     let sec = unrl(&v["sec"]);
-    run_section(&sid, v.get("tag").unwrap_or(&json!({"g": "scenario"})), &sec, out)
+    let progs: Vec<Vec<POp>> = v
+        .get("progs")
+        .and_then(|p| p.as_array())
+        .map(|ps| ps.iter().map(|p| p.as_array().map(|ops| ops.iter().map(pop_from).collect()).unwrap_or_default()).collect())
+        .unwrap_or_default();
+    run_section_progs(&sid, v.get("tag").unwrap_or(&json!({"g": "scenario"})), &sec, &progs, out)
 }
 
 fn item(kind: u8, len: usize, fill: u8) -> Vec<u8> {
@@ -147,6 +261,40 @@ pub fn generate(name: &str, count: usize, rng: &mut Rng, out: &mut dyn Write) ->
                     sec.extend_from_slice(&[7u8; 2][..rng.range(1, 2) as usize]);
                 }
                 n += run_section(&format!("tlvmany-{}", i), &json!({"g": "tlvmany"}), &sec, out);
+            }
+        }
+        // several items of unequal sizes (sometimes cut short), several programs of next / nth /
+        // consuming adaptors on ONE cursor each, and step_by on fresh ones
+        "tlvprog" => {
+            for i in 0..count {
+                let k = 2 + rng.below(7) as usize;
+                let mut sec = Vec::new();
+                for j in 0..k {
+                    let len = *rng.pick(&[0usize, 0, 1, 2, 3, 5, 8, 255, 256]);
+                    sec.extend(item((j as u8).wrapping_mul(17).wrapping_add(rng.below(3) as u8), len, rng.next() as u8));
+                }
+                match rng.below(5) {
+                    0 => { let cut = rng.below(sec.len() as u64 + 1) as usize; sec.truncate(cut); }
+                    1 => { sec.extend_from_slice(&[9, 0]); }
+                    _ => {}
+                }
+                let mut progs = Vec::new();
+                for _ in 0..3 {
+                    let mut prog = Vec::new();
+                    let steps = 1 + rng.below(5);
+                    for _ in 0..steps {
+                        prog.push(match rng.below(10) {
+                            0..=3 => POp::Next,
+                            4..=8 => POp::Nth(rng.below(4) as i64),
+                            _ => POp::Nth(-1),
+                        });
+                    }
+                    prog.push(POp::Rest(rng.pick(&["collect", "count", "last", "fold", "for_each"]).to_string()));
+                    prog.push(POp::Next);
+                    prog.push(POp::StepBy(1 + rng.below(4) as usize));
+                    progs.push(prog);
+                }
+                n += run_section_progs(&format!("tlvprog-{}", i), &json!({"g": "tlvprog"}), &sec, &progs, out);
             }
         }
         other => panic!("unknown tlv generator {}", other),
